@@ -100,6 +100,7 @@ def handle (args : List String) : Option String :=
     let l ← parseText l; let r ← parseText r; let t ← parseText g
     if t.isEmpty != (l == r) then some "violates: the diff is empty but the texts differ (or the converse)"
     else some "holds"
+  | ["judge", g, "::", "mid", _, _] => some s!"violates: middle answered {g}"
   | ["judge", g, _, "::", "mid", a, b] => do
     let a ← parseInts a; let b ← parseInts b
     match parseTriple g with
